@@ -87,6 +87,8 @@ func c05SpecAccept(wire []byte, rx c05Rx) bool {
 var c05Refused func()
 
 func runC05(c *core.Ctx) {
+	var prevFCtrl lorawan.FCtrl
+	havePrevFCtrl := false
 	n := c.N(3000, 400000)
 	for i := int64(0); i < n; i++ {
 		if !c.Mine("exchange", i) {
@@ -164,6 +166,15 @@ func runC05(c *core.Ctx) {
 
 		// ---- sender
 		tx := d.Lib()
+		if havePrevFCtrl && i%4 == 1 {
+			// a network server answers by copying the FCtrl value of the frame it received last and setting
+			// the flags it wants (whatever else that value carries along must not reach the wire)
+			want := tx.MACPayload.(*lorawan.MACPayload).FHDR.FCtrl
+			fc := prevFCtrl
+			fc.ADR, fc.ADRACKReq, fc.ACK, fc.FPending, fc.ClassB = want.ADR, want.ADRACKReq, want.ACK, want.FPending, want.ClassB
+			tx.MACPayload.(*lorawan.MACPayload).FHDR.FCtrl = fc
+			c.Count("exchanges.sender-built-on-a-received-fctrl", 1)
+		}
 		frmKey := k.app
 		if d.Spec.FPort == 0 {
 			frmKey = k.enc
@@ -293,6 +304,7 @@ func runC05(c *core.Ctx) {
 			continue
 		}
 		gmp := got.MACPayload.(*lorawan.MACPayload)
+		prevFCtrl, havePrevFCtrl = gmp.FHDR.FCtrl, true
 		if len(d.Spec.FOpts) > 0 {
 			if g, w := core.Dump(gmp.FHDR.FOpts), core.Dump(d.FOpts); g != w {
 				c.Violate(fmt.Sprintf("C05|fopts-differ|%s|v11=%v", dir, v11), "receiver FOpts %s\nsender FOpts   %s", short(g, 400), short(w, 400))
